@@ -23,7 +23,7 @@ RULE = ('each run = (o) its slice of the exhaustive enumeration of all branch hi
 ASSUMPTIONS = ['R5: the symbols occurring on a branch are recomputed from its nodes (sentence.constants, world/world1/world2 keys)']
 
 def plan(tier):
-    return dict(runs=2400 if tier == 'quick' else 80000, timeout=300 if tier == 'quick' else 3600)
+    return dict(runs=2400 if tier == 'quick' else 80000, timeout=900 if tier == 'quick' else 9000)
 
 # -- exhaustive part: every history over a small alphabet of operations up to a depth bound
 
